@@ -1,1 +1,57 @@
-From TL Require Import Base.Base.
+(* C08 - The reader is total: any text yields a program or a parse error. *)
+(* Statements only; proofs are in Proofs/ReaderTotal.v.                    *)
+From TL Require Import Base.Base Model.Reader Proofs.ReaderTotal.
+
+(* For every float oracle, every obarray state and every text (any list of *)
+(* code points, any length, any nesting) the reader returns forms or a     *)
+(* parse error: it never reaches a panic site (usize underflow in the span *)
+(* arithmetic, assert_eq!, the unwrap()s of parse_list and of the numeric  *)
+(* conversions) and never runs out of the fuel `length text + 1`.          *)
+Theorem C08_reader_total :
+  forall (F : fops) (fl : rflags) (t : text),
+    (exists forms, read_ax F fl t = Ok forms) \/ read_ax F fl t = Err EParse.
+Proof. exact read_ax_total. Qed.
+Print Assumptions C08_reader_total.
+
+Theorem C08_no_panic :
+  forall (F : fops) (fl : rflags) (t : text) (site : N), read_ax F fl t <> Panic site.
+Proof.
+  intros F fl t site H. destruct (read_ax_total F fl t) as [[forms E]|E]; congruence.
+Qed.
+Print Assumptions C08_no_panic.
+
+Theorem C08_terminates :
+  forall (F : fops) (fl : rflags) (t : text), read_ax F fl t <> Fuel.
+Proof.
+  intros F fl t H. destruct (read_ax_total F fl t) as [[forms E]|E]; congruence.
+Qed.
+Print Assumptions C08_terminates.
+
+(* the tokenizer alone: every position it reports is at least column 1     *)
+Theorem C08_tokenizer_total :
+  forall (F : fops) (t : text),
+    exists ts, tokenize F (S (List.length t)) t 1%N 1%N = Ok ts.
+Proof. intros. apply tokenize_ok; lia. Qed.
+Print Assumptions C08_tokenizer_total.
+
+(* non-vacuity: both outcomes occur *)
+Definition F0 : fops :=
+  {| f_add := fun _ _ => 0; f_sub := fun _ _ => 0; f_mul := fun _ _ => 0;
+     f_div := fun _ _ => 0; f_rem := fun _ _ => 0; f_pow := fun _ _ => 0;
+     f_max := fun _ _ => 0; f_min := fun _ _ => 0; f_of_int := fun z => z;
+     f_to_int := fun z => z; f_round := fun z => z; f_trunc := fun z => z;
+     f_lt := Z.ltb; f_le := Z.leb; f_eq := Z.eqb; f_is_finite := fun _ => true;
+     f_to_dec := fun _ => []; f_of_dec := fun _ => None |}.
+Definition fl0 := {| t_interned := false; nil_interned := false |}.
+
+Example C08_ok : exists forms, read_ax F0 fl0 (s2t "(a 'b . c) 12 ""s""") = Ok forms /\ List.length forms = 3%nat.
+Proof. eexists. split; [vm_compute; reflexivity | reflexivity]. Qed.
+Example C08_err1 : read_ax F0 fl0 (s2t "(a .") = Err EParse.
+Proof. vm_compute. reflexivity. Qed.
+Example C08_err2 : read_ax F0 fl0 (s2t "99999999999999999999") = Err EParse.
+Proof. vm_compute. reflexivity. Qed.
+Example C08_err3 : read_ax F0 fl0 (s2t "-.") = Err EParse.
+Proof. vm_compute. reflexivity. Qed.
+
+Check C08_reader_total : forall (F : fops) (fl : rflags) (t : text),
+    (exists forms, read_ax F fl t = Ok forms) \/ read_ax F fl t = Err EParse.
